@@ -44,6 +44,27 @@ def _q(fam, api, table, n, wrap, flush, eos, avail, cls, tier, exact=False, hist
 DEFAULT_CLASSES = list(range(1, 16))
 
 
+CR_UNITS = ["igzip/igzip.c", "igzip/igzip_base.c", "igzip/igzip_base_aliases.c", "igzip/hufftables_c.c",
+            "crc/crc_base.c", "crc/crc64_base.c", "crc/crc_base_aliases.c", "igzip/adler32_base.c"]
+
+
+def construn(n, wrap, av, rep, flushmode=0, core=False, witness=False):
+    b = D.bound(n, wrap)
+    hd = ["N=%d" % n, "WRAP=%d" % wrap, "AVAIL_OUT=%d" % av, "REP=%d" % rep] + (["FLUSHMODE=1"] if flushmode else [])
+    return Query("CONSTRUN%s/n%d/%s/av%d/rep%02x" % ("-FF" if flushmode else "", n, D.WRAPS[wrap], av, rep), D.R,
+                 dict(harness="harness/C01/h_construn.c", units=CR_UNITS, vunits=D.VUNITS,
+                      defines=["_X86INTRIN_H_INCLUDED=1", "_IMMINTRIN_H_INCLUDED=1"], hdefines=hd,
+                      unwindset=D.unwindset(n, exact=True, dynamic=True, nblk=(4 if flushmode else 2), avail=av,
+                                            extra={"harness.0": n + 2, "harness.1": n + 2, "rfc_codes.0": n + 6, "rfc_codes.1": 260,
+                                                   "rfc_dynamic.0": 340, "rfc_dynamic.1": 340, "rfc_dynamic.2": 340, "rfc_dynamic.3": 340,
+                                                   "write_constant_compressed_stateless.0": 30, "write_constant_compressed_stateless.1": 30,
+                                                   "write_constant_compressed_stateless.2": 12, "detect_repeated_char_length.0": n // 8 + 3,
+                                                   "detect_repeated_char_length.1": 10, "adler32_base.2": n + 2, "crc32_gzip_refl_base.0": n + 2,
+                                                   "wmemset.0": 2100}),
+                      unwind=n + 8, flags=D.fs_flags(max(av, 400)), witness=witness, timeout=300),
+                 core=core, family="CONSTRUN", weight=n / 10.0)
+
+
 def plan(tier, ctx):
     global DEFAULT_CLASSES
     DEFAULT_CLASSES = D.default_lit_classes(ctx.repo)
@@ -123,8 +144,9 @@ def plan(tier, ctx):
 
     # ---------------------------------------------------------------- constant-run shortcut of the stateless API (lead)
     # write_constant_compressed_stateless: whole input = N >= 8 bytes of 0x00 / 0xFF (run value symbolic)
-    cr_units = ["igzip/igzip.c", "igzip/igzip_base.c", "igzip/igzip_base_aliases.c", "igzip/hufftables_c.c",
-                "crc/crc_base.c", "crc/crc64_base.c", "crc/crc_base_aliases.c", "igzip/adler32_base.c"]
+    # N-1 mod 258 selects the shape of the tail: <= 115 (code10s + literals), 116..130 (one code280), 131..229 (code10s then one
+    # code280), >= 230 (two code280s): every boundary on both sides
+    edge = [117, 131, 132, 230, 231, 232, 258]
     for n in ([8, 9, 20, 300] if quick else [8, 9, 10, 19, 20, 125, 259, 300, 600]):
         for wrap in ([0, 1, 3] if quick else allw):
             b = D.bound(n, wrap)
@@ -132,16 +154,19 @@ def plan(tier, ctx):
             if quick and n > 9:
                 avs = avs[::3] + [b]
             for av, rep in [(a, r) for a in sorted(set(a for a in avs if a >= 0)) for r in (0, 255)]:
-                qs.append(Query("CONSTRUN/n%d/%s/av%d/rep%02x" % (n, D.WRAPS[wrap], av, rep), D.R,
-                                dict(harness="harness/C01/h_construn.c", units=cr_units, vunits=D.VUNITS,
-                                     defines=["_X86INTRIN_H_INCLUDED=1", "_IMMINTRIN_H_INCLUDED=1"],
-                                     hdefines=["N=%d" % n, "WRAP=%d" % wrap, "AVAIL_OUT=%d" % av, "REP=%d" % rep],
-                                     unwindset=D.unwindset(n, exact=True, dynamic=True, nblk=2, avail=av, extra={"harness.0": n + 2, "harness.1": n + 2, "rfc_codes.0": n + 6, "rfc_codes.1": 260,
-                                                                                                  "rfc_dynamic.0": 340, "rfc_dynamic.1": 340, "rfc_dynamic.2": 340, "rfc_dynamic.3": 340, "write_constant_compressed_stateless.0": 30, "write_constant_compressed_stateless.1": 30,
-                                                                                                  "write_constant_compressed_stateless.2": 12, "detect_repeated_char_length.0": n // 8 + 3,
-                                                                                                  "detect_repeated_char_length.1": 10, "adler32_base.2": n + 2, "crc32_gzip_refl_base.0": n + 2}),
-                                     unwind=n + 8, flags=D.fs_flags(max(av, 400)), witness=(n == 8 and av == b and rep == 255), timeout=300),
-                                core=(n == 8 and av == b and rep == 255), family="CONSTRUN", weight=n / 10.0))
+                qs.append(construn(n, wrap, av, rep, core=(n == 8 and av == b and rep == 255), witness=(n == 8 and av == b and rep == 255)))
+    for n in edge:
+        for wrap in ([0, 3] if quick else allw):
+            b = D.bound(n, wrap)
+            for av in ([b] if quick else [40, b - 1, b, b + 9]):
+                for rep in (0, 255):
+                    qs.append(construn(n, wrap, av, rep))
+    # FULL_FLUSH with end_of_stream = 0 (C14 one-shot clause) through the same shortcut
+    for n in ([8, 40, 231] if quick else [8, 9, 40, 117, 131, 231, 258, 300]):
+        for wrap in ([0, 1] if quick else [0, 1, 3]):
+            b = D.bound(n, wrap)
+            for rep in (0, 255):
+                qs.append(construn(n, wrap, b + 16, rep, flushmode=1, witness=(n == 40 and wrap == 0 and rep == 0)))
     return Plan("C01", "model_checking", qs,
                 functions_encoded=["isal_deflate_stateless", "isal_deflate (single call, end_of_stream=1)", "isal_deflate_init",
                                    "isal_deflate_stateless_init", "isal_deflate_set_hufftables", "isal_deflate_int_stateless",
